@@ -49,6 +49,13 @@ type Script struct {
 	// Delays (milliseconds) injected inside the instrumented endpoint methods
 	// (scan, transition, shutdown) to widen interleaving windows.
 	Delays map[string]int `json:"delays,omitempty"`
+	// FailTx: side ("alpha" | "beta") -> the number (1 = first) of the
+	// Transition call on that side that fails outright, as when the
+	// connection to the endpoint is lost while it applies changes. With
+	// FailTxAfter the real endpoint applies the changes first and the error
+	// replaces its answer; otherwise nothing is applied.
+	FailTx      map[string]int `json:"failtx,omitempty"`
+	FailTxAfter bool           `json:"failtxafter,omitempty"`
 	// Initial content: name -> content, per side
 	Alpha map[string]string `json:"alpha,omitempty"`
 	Beta  map[string]string `json:"beta,omitempty"`
@@ -72,6 +79,30 @@ type environment struct {
 	tags     map[string]bool
 	created  bool
 	mgrAlive bool
+	txMu     sync.Mutex
+	txCalls  map[string]int
+	txFailed bool
+}
+
+// failTransition counts the Transition calls per side and reports whether
+// this one is to fail.
+func (env *environment) failTransition(alpha bool) bool {
+	side := "beta"
+	if alpha {
+		side = "alpha"
+	}
+	env.txMu.Lock()
+	defer env.txMu.Unlock()
+	if env.txCalls == nil {
+		env.txCalls = map[string]int{}
+	}
+	env.txCalls[side]++
+	n, ok := env.script.FailTx[side]
+	if ok && n == env.txCalls[side] {
+		env.txFailed = true
+		return true
+	}
+	return false
 }
 
 func (env *environment) delay(kind string) {
